@@ -4,4 +4,5 @@ CONSTANTS
   Amount = 4
   CloseFirst = TRUE
   ReadPipeFix = TRUE
+  ErrPipeFix = TRUE
 INVARIANT Reaped
